@@ -6,6 +6,7 @@ import (
 	"fmt"
 	"go/types"
 	"strings"
+	"sync/atomic"
 
 	"golang.org/x/tools/go/ssa"
 )
@@ -154,8 +155,12 @@ type Cell struct {
 }
 
 func (c *Cell) Load() Value { return c.V }
+
+// initWrites > 0 while a package initialiser runs: initialisers may write other packages' globals
+var initWrites int32
+
 func (c *Cell) Store(v Value) {
-	if c.Frozen {
+	if c.Frozen && atomic.LoadInt32(&initWrites) == 0 {
 		panic(unsupported("store to frozen (init-time) cell " + c.Name))
 	}
 	c.V = v
@@ -461,3 +466,6 @@ func describe(v Value) string {
 	}
 	return fmt.Sprintf("%T", v)
 }
+
+// NativeVal wraps a Go value that lives outside the interpreter (e.g. *regexp.Regexp)
+type NativeVal struct{ V interface{} }
